@@ -696,7 +696,7 @@ func GenGens(g G, pal Palette, allowErr bool) []GenSpec {
 	return gs
 }
 
-var malformedKinds = []string{"nilarg", "nilnamed", "niltyped", "nilnamedsub", "niltypedsub", "nilconv", "intconv", "strconv", "nilconvfunc"}
+var malformedKinds = []string{"nilarg", "nilnamed", "niltyped", "nilnamedsub", "niltypedsub", "nilconv", "intconv", "strconv", "nilconvfunc", "nilfuncptrconv", "structconv", "ptrconv"}
 
 // GenNasty draws scenarios from the classes other profiles avoid (C06).
 func GenNasty(g G) *Scenario {
